@@ -13,6 +13,9 @@ CLAIMS = {
 CLAIMS["C05"] = ("proof", "contract-based deductive verification: WP VCs over go/ssa of the real functions, discharged by z3/cvc5",
          "Unbounded proof that actionLint returns an error exactly when some report has severity >= --fail-on (loop invariant over the map range in any iteration order; --min-severity and duplicate folding do not occur in the decision), that actionCI returns an error whenever a counted severity reaches the threshold and nil on the final return otherwise, with Summary.CountBySeverity (domain = severities present, counts >= 1), Summary.Dedup (problems untouched), ParseSeverity (table) and the order of the severity constants under contract.",
          "assumed: urfave/cli turns the action's error into a non-zero exit via main (not under contract); SortReports permutes reports (slices.SortStableFunc, A5); early returns for I/O or flag errors are 'linting did not complete' and carry no obligation", "DESIGN.md §7 C05")
+CLAIMS["C15"] = ("proof", "contract-based deductive verification with a ghost call trace: WP VCs over go/ssa, discharged by z3/cvc5",
+         "Unbounded proof, for every number of upstreams and every fault assignment, that each of the five FailoverGroup request methods contacts an upstream only if every earlier one failed with an unavailability error (plus 'unsupported' for config/flags/metadata), that the outcome is the outcome of the last upstream contacted (answer on success; on failure the same error wrapped with that upstream's URI and the group's strict flag), with IsUnavailableError, isUnsupportedError, decodeErrorType and problemFromError's severity table under contract.",
+         "errors.As/errors.Is are modelled as uninterpreted predicate/extractor pairs (A5): which Go error values concrete network faults produce is not decided; upstream request methods are used through empty contracts", "DESIGN.md §7 C15")
 NA = {
  "C19": "two-run relational property of two recursive traversals over a third-party AST (yaml.Node) quantified over wrappers of arbitrary depth; no contract within reach of the generator can state it (DESIGN.md §8)",
 }
